@@ -29,8 +29,10 @@ ASSUMPTIONS = [
     'measured from the time stamp in the cookie',
     'hmac, json and base64 are abstract functions in the theorems; the premises deser(ser p)=Some p, unb64(b64 x)=Some x and '
     'length(mac k m)=ds are explicit hypotheses of the theorems that need them',
-    'WebOb base64 layer ignores padding/non-alphabet characters and the key is salt++secret: statements are about decoded '
-    'bytes and the concatenated key',
+    'an ALTERED cookie is a text that differs from the cookie most recently set; the specification demands a new empty '
+    'session for every such text (open finding C10-lenient-base64-edit-accepted: the lenient base64 decoder maps many '
+    'texts to the same signed bytes); the chain theorems carry the premise chain_ok (altered texts presented are ones '
+    'the signature check refuses) and the clause is refuted by C10_altered_cookie_rejected_refuted; the key is salt++secret',
     'all calls made inside one operation see the same clock value',
 ]
 TRUSTED = [
@@ -50,7 +52,7 @@ TRUSTED = [
 TECHNIQUE = ('Coq proof (induction over operation lists and request chains) about a Gallina program whose control flow is '
              'translated from src/pyramid/session.py on every run (harness/c10/translate.py), proved equal to a hand-written '
              'reference model; wrapper table regenerated from the class body; extracted-program differential correspondence')
-LEVEL_TEXT = ('Machine-checked theorems (38, closed under the global context).  The program regenerated from session.py on this '
+LEVEL_TEXT = ('Machine-checked theorems (42, closed under the global context; the chain theorems are _partial: see ASSUMPTIONS).  The program regenerated from session.py on this '
               'run (manage_accessed/manage_changed, changed, invalidate, flash, pop_flash, peek_flash, new_csrf_token, '
               'get_csrf_token, __init__, _set_cookie; wrappers chosen by the regenerated class table) equals the reference '
               'model for all inputs, and the property holds of it literally: over whole request histories it refines the '
